@@ -24,6 +24,7 @@ structure DocOk (langs : List String) (r : RepoMeta) (d : Doc) : Prop where
   sub_lt : d.sub < r.subPaths.length
   secs : secsOk (contentLen d.content) d.secs = true
   lang_idem : langs.getD d.lang "" = "" → d.redetect = ""
+  syms : d.syms.any (·.isNone) = false
 
 theorem decode_langs_ext (langs suf : List String) (r : RepoMeta) (d : Doc) (h : d.lang < langs.length) :
     decode (langs ++ suf) r d = decode langs r d := by
@@ -42,6 +43,7 @@ theorem add_spec (langs : List String) (b : Builder) (pre : List (RepoMeta × Li
   have hmask : encodeMask r.branches (decode langs r d).branches = some d.mask :=
     mask_roundtrip0 _ hok.br_nodup hok.br_len _ hok.mask_lt
   have hsecs : secsOk (contentLen (decode langs r d).content) (decode langs r d).secs = true := hok.secs
+  have hsyms : (decode langs r d).syms.any (·.isNone) = false := hok.syms
   obtain ⟨hl1, hl2, suf, hl3⟩ := langCode_spec b.langs (decode langs r d).lang
   generalize hlc : langCode b.langs (decode langs r d).lang = lc at hl1 hl2 hl3
   obtain ⟨langs', code⟩ := lc
@@ -51,7 +53,7 @@ theorem add_spec (langs : List String) (b : Builder) (pre : List (RepoMeta × Li
   refine ⟨{ groups := pre ++ [(r, ds ++ [d'])], langs := langs' }, ds ++ [d'], ?_, ?_, ?_, rfl, by simp⟩
   · unfold Builder.add
     rw [hlast]
-    simp only [hlang, hsecs, hsub, hmask, hlc, Bool.not_true, Bool.false_eq_true, if_false]
+    simp only [hlang, hsecs, hsyms, hsub, hmask, hlc, Bool.not_true, Bool.false_eq_true, if_false]
     have : b.groups.dropLast = pre := by rw [hg]; simp
     rw [this]
     rfl
